@@ -108,6 +108,9 @@ fn gen_c12(tier: &str, r: &Rng, o: &mut Out<'_>) {
         o.d(&format!("pidnew {}", v));
     }
     for v in 0..=255u32 { o.d(&format!("ccnew {}", v)); }
+    // ContinuityCounter::follows on every pair of counter values (public API, 16 x 16), and
+    // From<u8> for ContinuityCounter (keeps the low four bits? no: it asserts like new) via ccnew above
+    for a in 0..16u32 { for b in 0..16u32 { o.d(&format!("ccf {} {}", a, b)); } }
     // a bad sync byte is refused
     let mut p = rand_packet(r);
     p[0] = 0x46;
